@@ -90,5 +90,11 @@ pub open spec fn spec_hash(text: Seq<char>) -> Option<Seq<char>> {
     spec_hash_from(spec_lines(text), 0)
 }
 
+/// trusted: `&str == String` compares the character sequences (std: impl PartialEq<String> for &str)
+pub broadcast axiom fn axiom_str_eq_string_obeys()
+    ensures #[trigger] <&str as vstd::std_specs::cmp::PartialEqSpec<String>>::obeys_eq_spec();
+pub broadcast axiom fn axiom_str_eq_string(a: &str, b: String)
+    ensures #[trigger] <&str as vstd::std_specs::cmp::PartialEqSpec<String>>::eq_spec(&a, &b) == (a@ == b@);
+pub broadcast group group_str_eq { axiom_str_eq_string_obeys, axiom_str_eq_string }
 } // verus!
 } // mod vx_str
